@@ -34,7 +34,8 @@ CHECKS['C11'] = ('exploration','runtime monitoring: repetition monitor (same pro
 CHECKS['C16'] = ('exploration','runtime monitoring: (a) sequential pollution monitor - probe outcomes after polluter sequences compared with outcomes in pristine processes; (b) Go race detector plus response/token matching while goroutines drive the real HTTP handlers concurrently', 'All single polluters x all probes and random polluter sequences are run in fresh processes with shared and separate Interpreter objects; concurrent executions are driven through the real handlers under the race detector with each request returning its own token.', 'Trusts: the Go race detector (reports only executed interleavings); the synthetic library registered through SetExternalLibs stands in for library types because stdlib/http does not compile on this platform.', '§6 C16')
 CHECKS['C15'] = (REF[0],'runtime monitoring: bounded-exhaustive enumeration of module dependency digraphs materialised as real .zn directories, outcome (marker trace, result, error code) compared with the module model of the reference evaluator; tick budget for hangs', REF[1], REF[2]+' Exhaustive over all digraphs on main+2 (quick) / main+3 (thorough) modules; larger graphs sampled.', '§6 C15')
 CHECKS['C18'] = (REF[0],'runtime monitoring: fault-planting generator with renderer-recorded physical lines; the rendered error text is parsed and compared with the reference call stack at the fault (runtime) and with the planted offset (syntax, incl. caret column)', REF[1], REF[2]+' Display widths: ASCII 1, CJK/full-width 2; other characters before the caret make the column unjudged.', '§6 C18')
-NOT_YET = {}
+CHECKS['C03'] = ('exploration','runtime monitoring: generate-and-recover oracle for the parser (tree -> licensed layouts -> parse -> canonical dump == prescribed tree), metamorphic comparison across layouts, and completeness check of trees accepted after token-level corruption', 'Random syntax trees over every statement kind and expression form are rendered under the canonical and several random layout vectors; the real parser must return exactly the prescribed tree for each and the same tree for all layouts; corrupted renderings that are accepted must yield complete trees.', 'Trusts: the renderer (which layouts are licensed: DESIGN Appendix B) and the expected-dump mapping in znref/dump.go; empty statements produced by ； are not compared (the BNF lists ； both as statement and separator).', '§6 C03')
+NOT_YET = {'C20': 'check not built yet in this round (prefork master monitored at the process boundary with exec-delay injection: DESIGN §6 C20)'}
 
 def main():
     props=[json.loads(l) for l in open('properties.jsonl')]
